@@ -54,11 +54,23 @@ def _tagged(tag):
     return cb
 
 
+class _Shared:
+    """ONE callable handed over for many requests (a handler that queues its own method for several instants); which
+    request an event belongs to is told by the event's context string"""
+    def run(self):
+        return -7
+
+
+_SHARED = _Shared()
+
+
 def _el_callback(tag, keeper):
     """callables of every kind a caller may legitimately pass: lambda, closure, partial, bound method of a
-    temporary object, bound method of a long-lived object, callable instance"""
+    temporary object, bound method of a long-lived object, callable instance, one and the same bound method every time"""
     import functools
-    k = tag % 6
+    k = tag % 7
+    if k == 6:
+        return _SHARED.run                       # equal (==, same hash) to every other callback of this kind
     if k == 0:
         return lambda tag=tag: tag
     if k == 1:
@@ -72,6 +84,16 @@ def _el_callback(tag, keeper):
         keeper.append(j)
         return j.run
     return _Job(tag)
+
+
+def _el_tag(e):
+    r = _el_result(e.callback())
+    if r == -7:
+        try:
+            return int(str(e.context).split()[1])
+        except Exception:  # noqa: BLE001
+            return -8
+    return r
 
 
 def _el_result(x):
@@ -88,14 +110,14 @@ def run_el_impl(ops):
         try:
             if k == "sched":
                 tag = op[2]
-                el.schedule_event(op[1], _el_callback(tag, keeper), "ctx")
+                el.schedule_event(op[1], _el_callback(tag, keeper), "ctx %d" % tag)
                 out.append("ok")
             elif k == "pop":
                 e = el.pop_event()
-                out.append("popped %s %d" % (fhex(e.timestamp), _el_result(e.callback())))
+                out.append("popped %s %d" % (fhex(e.timestamp), _el_tag(e)))
             elif k == "peek":
                 e = el.peek_event()
-                out.append("peeked none" if e is None else "peeked %s %d" % (fhex(e.timestamp), _el_result(e.callback())))
+                out.append("peeked none" if e is None else "peeked %s %d" % (fhex(e.timestamp), _el_tag(e)))
             elif k == "clear":
                 el.clear()
                 out.append("cleared")
@@ -587,6 +609,15 @@ def run_sim_impl(sc, variant=None):
                 cfg.duration, cfg.max_iterations = 1e-3, 1
                 late.append(lambda: (setattr(cfg, "duration", want[0]), setattr(cfg, "max_iterations", want[1])))
             b = SimulationBuilder(cfg)
+
+            def add_nodes():
+                ids = []
+                for nd in sc["nodes"]:
+                    ids.append(b.add_node(PROTO[nd["ty"]], tuple(_num(float(v)) for v in nd["pos"])))
+                if ids != list(range(len(ids))):
+                    CTX.trace.append("ids %s" % ids)
+            if sc.get("nodes_first"):
+                add_nodes()       # the order of add_node / add_handler calls is the user's choice
             rng, delay, fail = sc["med"]
             rate, speed, ref = sc["mob"]
             for h in sc["handlers"]:
@@ -614,11 +645,8 @@ def run_sim_impl(sc, variant=None):
                     b.add_handler(make_recorder(int(h[1:])))
                 else:
                     raise ValueError(h)
-            ids = []
-            for nd in sc["nodes"]:
-                ids.append(b.add_node(PROTO[nd["ty"]], tuple(_num(float(v)) for v in nd["pos"])))
-            if ids != list(range(len(ids))):
-                CTX.trace.append("ids %s" % ids)
+            if not sc.get("nodes_first"):
+                add_nodes()
             for f in late:
                 f()
             if sc.get("rerun") and sc["drv"][0] == "run":
